@@ -5,7 +5,8 @@ import Winter.Model.Parallel
 import WinterProofs.Lemmas.C09Permute
 
 namespace WinterProofs.C14
-open Model.Parallel Model.Fft
+open Model.Parallel
+open Model.Fft (brev permuteIndex isPow2)
 
 /-! ### `next_power_of_two` -/
 
